@@ -1,4 +1,4 @@
--- PINNED by bin/pin_tables: copy of Gen/Dispatch.lean as generated from /repo at fb6d1eb — regenerate, do not edit
+-- PINNED by bin/pin_tables: copy of Gen/Dispatch.lean as generated from /repo at b2f58e7 — regenerate, do not edit
 namespace Ggql.Pinned
 def dispatchOrder : List String := ["resolver", "any", "reflect"]
 def opFallbackAnyName : Bool := false
@@ -46,7 +46,7 @@ def argSkeleton : List (String × String) := [
   ("Error.in", "cffe1f43c8db"),
   ("Errors.in", "fbcdd807c73e"),
   ("Input.CoerceIn", "1ae44ebae6eb"),
-  ("Input.reflectSet", "7a298a1de3ad"),
+  ("Input.reflectSet", "d6bbe634d4a6"),
   ("Input.reflectSetKey", "b97163bbb51d"),
   ("List.CoerceIn", "342314fa8b37"),
   ("Root.addError", "c5f7e10ca815"),
@@ -56,6 +56,6 @@ def argSkeleton : List (String × String) := [
   ("Root.replaceArgVars", "8e6170986780"),
   ("Root.resolveField", "d8dcc1486960"),
   ("Root.resolveReflect", "15757bc1bc70"),
-  ("checkReflectArgs", "2fe173b3f604")
+  ("checkReflectArgs", "bebacba2a1e6")
 ]
 end Ggql.Pinned
